@@ -21,6 +21,9 @@ hang becomes an observation: polling loops give up at the deadline, a blocking c
 orchestrator (notify/notify_all/set/with cond) is interrupted by SIGALRM, and the driver kills a
 runner (whole session) that does not report.
 
+Kind fork_held: the runner's main thread holds the lock (RLock / Lock / a Condition's lock) WHILE the participant
+processes are forked (launch() is called inside the critical section).
+
 Layout keys shared by the scenario kinds:
   procs   : list of ints, one per child process: n > 0 = n participant threads in that process,
             0 = the process's main thread is the participant
@@ -545,6 +548,109 @@ class Scn:
         obs['seen_from_runner'] = {pl: dict(b=self.gv(objs[pl]['b']), s=self.gv(objs[pl]['s']), l=self.gv(objs[pl]['l']))
                                    for pl in places}
 
+    def k_fork_held(self, obs):
+        """the runner's main thread TAKES the lock (an RLock, a Lock, or the lock of a Condition) and forks the
+        participant processes WHILE HOLDING it.  Every participant first reports what its own copy of the lock object
+        says (_count(), _is_mine()) and the result of one NON-blocking acquire -- the holder is still inside -- then
+          lock kinds: 'rounds' critical sections under the lock (occupancy counter as in k_semaphore)
+          cond kinds: `with cond: cond.wait()`; the runner then releases, waits for the announcements, notify_all()"""
+        ctx = self.ctx
+        prim = self.spec.get('prim', 'rlock')
+        cond = None
+        if prim in ('cond', 'cond_lock'):
+            cond = ctx.Condition(ctx.Lock()) if prim == 'cond_lock' else ctx.Condition()
+            lock, inner = cond, cond._lock
+        else:
+            lock = inner = ctx.RLock() if prim == 'rlock' else ctx.Lock()
+        guard = ctx.Lock()
+        cur = ctx.Value('i', 0, lock=False)
+        mx = ctx.Value('i', 0, lock=False)
+        entries = ctx.Value('i', 0, lock=False)
+        rounds = int(self.spec.get('rounds', 2))
+        hold = float(self.spec.get('hold', 0.003))
+        go = self.gate('go')
+        parts = layout(self.spec, role='worker', timeout=None, gate=go)
+
+        def enter():
+            with guard:
+                cur.value += 1
+                c = cur.value
+                if c > mx.value:
+                    mx.value = c
+            return c
+
+        def leave():
+            with guard:
+                cur.value -= 1
+
+        def body(part):
+            sl = inner._semlock
+            d = dict(count0=sl._count(), is_mine0=bool(sl._is_mine()))
+            got = lock.acquire(False)
+            d['try0'] = bool(got)
+            if got:      # inside together with the holder
+                d['inside_with_holder'] = enter()
+                leave()
+                lock.release()
+            self.emit(dict(id=part['id'], ev='tried', **d))
+            if cond is None:
+                localmax = 0
+                for _ in range(rounds):
+                    with lock:
+                        with guard:
+                            entries.value += 1
+                        localmax = max(localmax, enter())
+                        time.sleep(hold)
+                        leave()
+                d['localmax'] = localmax
+            else:
+                with cond:
+                    self.emit(dict(id=part['id'], ev='ready'))
+                    d['r'] = cond.wait()
+            return d
+        obs['k'] = 1
+        obs['initial_value'] = self.gv(inner)
+        self.set_phase('launch')
+        lock.acquire()      # the forking thread holds the lock from here ...
+        try:
+            enter()
+            self.launch(parts, body)      # ... while the participant processes are forked ...
+            workers = self.ids(role='worker')
+            self.set_phase('tried')
+            self.open_gate(go)
+            self.wait_msgs(workers, 'tried')
+            obs['value_while_held'] = self.gv(inner)
+            obs['inside_while_held'] = cur.value
+            obs['holder_while_held'] = dict(is_mine=bool(inner._semlock._is_mine()), count=inner._semlock._count())
+            leave()
+        finally:
+            lock.release()      # ... to here
+        obs['released'] = True
+        if cond is None:
+            self.set_phase('workers')
+            self.wait_msgs(workers, 'done')
+            obs.update(max_inside=mx.value, inside_final=cur.value, entries=entries.value,
+                       expected_entries=rounds * len(workers), value_final=self.gv(inner), guard_final=self.gv(guard))
+        else:
+            self.set_phase('ready')
+            self.wait_msgs(workers, 'ready')
+            self.set_phase('announced')
+            self.poll(lambda: self.gv(cond._sleeping_count) >= len(parts))
+            self.set_phase('notify_all')
+            t = time.monotonic()
+            with cond:
+                obs['before_notify'] = self.cvals(cond)
+                cond.notify_all()
+            obs['notify_s'] = round(time.monotonic() - t, 4)
+            self.set_phase('collect')
+            self.wait_msgs(workers, 'done')
+            obs['max_inside'] = mx.value
+            obs['after'] = self.cvals(cond)
+            self.set_phase('reconcile')
+            with cond:
+                cond.notify_all()
+            obs['final'] = self.cvals(cond)
+
     # ------------------------------------------------------------ run
     def run(self):
         self.runner_pid = os.getpid()
@@ -578,6 +684,8 @@ class Scn:
             m = self.msgs.get(p['id'], {})
             d = dict(id=p['id'], where=p['where'], host=p['host'], role=p.get('role'), timeout=p.get('timeout'),
                      ready='ready' in m, done='done' in m)
+            if 'tried' in m:
+                d.update({kk: vv for kk, vv in m['tried'].items() if kk not in ('id', 'ev', 'at')})
             if 'done' in m:
                 d.update({kk: vv for kk, vv in m['done'].items() if kk not in ('id', 'ev', 'seq')})
             plist.append(d)
